@@ -278,6 +278,10 @@ type Runtime struct {
 	labels   map[uintptr]string
 	Depth    int // current nesting of user functions (should stay ≤1)
 	MaxDepth int
+	// OnBody, when set, is called from inside every user function body (after
+	// its arguments were logged): the harness uses it for ops a function
+	// performs itself.
+	OnBody func(inst string, exec int)
 }
 
 func NewRuntime() *Runtime {
@@ -533,6 +537,9 @@ func (rt *Runtime) Body(f *Func, inst string, ft reflect.Type, args []reflect.Va
 	defer func() { rt.Depth-- }()
 	rt.Log = append(rt.Log, Event{Kind: EvEnter, Fn: inst, Exec: exec, Args: collectArgs(f.Params, args), At: rt.Clock.Elapsed()})
 	rt.Clock.Advance(rt.Cost(inst))
+	if rt.OnBody != nil {
+		rt.OnBody(inst, exec)
+	}
 	beh := rt.planFor(inst, exec)
 	if beh == BehPanic {
 		pv := &PanicVal{Fn: inst, Exec: exec}
